@@ -942,6 +942,36 @@ func inputMouse(tw *trace.Writer, rng *rand.Rand, names []string, n int, st map[
 			one("x11", 35, 7, c, 'M', c%2 == 0, nil)
 			one("x11", 2, c, c, 'M', false, nil)
 		}
+		// a report and what follows it in the same read: a typed character, or the next report (each form, 7- and 8-bit introducer)
+		for _, form := range []string{"sgr", "x11"} {
+			for _, intro8 := range []bool{false, true} {
+				for _, next := range []string{"char", "report"} {
+					mk := func(x, y int) []byte {
+						var b []byte
+						if intro8 {
+							b = []byte{0x9b}
+						} else {
+							b = []byte{0x1b, '['}
+						}
+						if form == "sgr" {
+							return append(b, []byte(fmt.Sprintf("<0;%d;%dM", x, y))...)
+						}
+						return append(b, 'M', byte(0+32), byte(x+32), byte(y+32))
+					}
+					b := mk(3, 4)
+					if next == "char" {
+						b = append(b, 'z')
+					} else {
+						b = append(b, mk(6, 2)...)
+					}
+					r := decode(ti, "UTF-8", w, h, [][]byte{b}, nil)
+					e := runEvent("MouseThen", 0, b, nil, r)
+					e["form"], e["next"], e["intro8"] = form, next, intro8
+					tw.Emit(e)
+					reports++
+				}
+			}
+		}
 		// press / motion / wheel / release sequences on one decoder
 		for i := 0; i < n; i++ {
 			var vp *tcell.VerifParser
